@@ -176,8 +176,9 @@ def std_validate(chk, cases, tier):
         # the spec or the case set changed since the last validation: redo it (below)
         pass
     log(f"[C03] validating Std* against rustc on {len(todo)} literals")
-    par = 12                                     # concurrent rustc processes (one probe crate each)
-    nshards = par * max(1, -(-len(todo) // (par * 9000)))     # <= ~9000 probes per crate keeps rustc below ~3 GB
+    par = 12 if tier == "quick" else 8           # concurrent rustc processes (one probe crate each)
+    per = 9000 if tier == "quick" else 6000      # probes per crate (rustc stays below ~3 GB / ~2 GB)
+    nshards = par * max(1, -(-len(todo) // (par * per)))
     shards = [todo[i::nshards] for i in range(nshards)]
 
     def run(i):
